@@ -29,7 +29,10 @@ pub const FLAG_NTP: u16 = 1;
 pub fn flag_empty() -> (r: WhirlpoolControlFlags) ensures r.0 == 0 { WhirlpoolControlFlags(0) }
 pub fn flag_union(a: WhirlpoolControlFlags, b: u16) -> (r: WhirlpoolControlFlags) ensures r.0 == a.0 | b { WhirlpoolControlFlags(a.0 | b) }
 #[verifier::external_body]
-pub fn initialize_vault_token_account<'info>(whirlpool: &Account<'info, Whirlpool>, vault: &Signer<'info>, mint: &InterfaceAccount<'info, Mint>, funder: &Signer<'info>, token_program: &Interface<'info, TokenInterface>, system_program: &Program<'info, System>) -> (r: Result<()>) { unimplemented!() }
+pub fn initialize_vault_token_account<'info>(whirlpool: &Account<'info, Whirlpool>, vault: &Signer<'info>, mint: &InterfaceAccount<'info, Mint>, funder: &Signer<'info>, token_program: &Interface<'info, TokenInterface>, system_program: &Program<'info, System>) -> (r: Result<()>)
+    ensures r is Ok ==> vault_initialized(*vault.info.key, mint.data.k, token_program.k, whirlpool.k) { unimplemented!() }
+/// C19 / C15: the vault account `vault` was created as a token account of `mint` under `program`, owned by the pool `authority`
+pub uninterp spec fn vault_initialized(vault: Pubkey, mint: Pubkey, program: Pubkey, authority: Pubkey) -> bool;
 //@ struct events.rs PoolInitialized
 #[verifier::external_body]
 pub fn emit_pool_initialized(e: PoolInitialized) { unimplemented!() }
@@ -40,6 +43,7 @@ pub fn emit_pool_initialized(e: PoolInitialized) { unimplemented!() }
 //@ fn instructions/v2/initialize_pool.rs handler -> r as=initialize_pool_v2_handler canary
     requires constraints_InitializePoolV2(old(ctx.accounts), tick_spacing), old(ctx.accounts).fee_tier.data.tick_spacing > 0, // fee tiers have a non-zero spacing (FeeTier::initialize)
     ensures
+        r is Ok ==> vault_initialized(*old(ctx.accounts).token_vault_a.info.key, old(ctx.accounts).token_mint_a.data.k, old(ctx.accounts).token_program_a.k, old(ctx.accounts).whirlpool.k) && vault_initialized(*old(ctx.accounts).token_vault_b.info.key, old(ctx.accounts).token_mint_b.data.k, old(ctx.accounts).token_program_b.k, old(ctx.accounts).whirlpool.k), // each vault is a token account of ITS mint under that mint's token program, owned by the pool
         r is Ok ==> old(ctx.accounts).token_badge_a.skey() == crate::anchor_shim::pda_of(seq![crate::anchor_shim::Seed::Lit(0x746f6b656e5f6261646765int), crate::anchor_shim::Seed::Key(old(ctx.accounts).whirlpools_config.skey()), crate::anchor_shim::Seed::Key(old(ctx.accounts).token_mint_a.skey())]) && old(ctx.accounts).token_badge_b.skey() == crate::anchor_shim::pda_of(seq![crate::anchor_shim::Seed::Lit(0x746f6b656e5f6261646765int), crate::anchor_shim::Seed::Key(old(ctx.accounts).whirlpools_config.skey()), crate::anchor_shim::Seed::Key(old(ctx.accounts).token_mint_b.skey())]), // the badge accounts examined are the ones derived from ("token_badge", this config, that mint)
         r is Ok ==> old(ctx.accounts).fee_tier.data.whirlpools_config == old(ctx.accounts).whirlpools_config.k && old(ctx.accounts).fee_tier.data.tick_spacing == tick_spacing, // the pool takes its rate from a fee tier of ITS config for ITS spacing
         r is Ok ==> mint_supported(old(ctx.accounts).token_mint_a.data, badge_ok(old(ctx.accounts).token_badge_a, old(ctx.accounts).whirlpools_config.k, old(ctx.accounts).token_mint_a.data.k)),
